@@ -1426,6 +1426,10 @@ def kkt_chol2(G, dims, A, mnl = 0):
             if H is not None: 
                 F['S'] += H
             try:
+                if H is None and mnl + ml < n:
+                    # S has rank at most mnl + ml < n.  Because of rounding
+                    # the Cholesky factorization does not always fail.
+                    raise ArithmeticError("singular matrix")
                 if type(F['S']) is matrix: 
                     lapack.potrf(F['S']) 
                 else:
